@@ -241,6 +241,19 @@ let run (line : string) : string =
     let bs = bytes_of_hex h in
     s_res s_arp_view (Arp.slice_view bs) ^ " ; " ^ s_arp_eth (Arp.eth_ipv4_view bs)
     ^ " | " ^ s_res s_arp_view (arp_view bs) ^ " ; " ^ s_arp_eth (arp_eth_ipv4 bs)
+  (* ---- audit1-c17 ---- *)
+  | ["oc"; k; h] ->
+    (* a typed NDP option slice constructed directly from arbitrary bytes: model constructor |
+       closed form; an accepted option is printed with its accessors like an iterator item *)
+    let bs = bytes_of_hex h in
+    let kind = match int_of_string k with
+      | 1 -> KSrcLL | 2 -> KTgtLL | 3 -> KPrefix | 4 -> KRedir | 5 -> KMtu | _ -> KUnknownOpt in
+    let pr view = function
+      | Ndp.NOk s -> s_item 0 view (IOk (kind, s))
+      | Ndp.NErr e -> s_nerr e
+      | Ndp.NUB n -> "UB" ^ s_of_n n in
+    pr Ndp.opt_accessors (typed_ctor kind bs) ^ " | " ^ pr (fun k s -> Ok (opt_view k s)) (typed_ctor_spec kind bs)
+  (* ---- end audit1-c17 ---- *)
   | _ -> failwith ("bad c17 case: " ^ line)
 
 let () =
